@@ -150,10 +150,11 @@ PROPS["C03"] = {
         "'an upstream re-run that leaves its outputs' timestamps unchanged causes no re-runs' follows from the manifest being a function of (names, mtimes, cmdline, rspfile) only -- proved -- plus the trusted stat"],
 }
 PROPS["C09"] = {
-    "units": ["dirty", "task"],
-    "probes": {"dirty": ["work::Work::record_finished", "work::Work::check_build_files_missing", "hash::build_manifest"], "task": ["task::extract_showincludes", "task::run_task"]},
+    "units": ["dirty", "task", "sched"],
+    "probes": {"dirty": ["work::Work::record_finished", "work::Work::check_build_files_missing", "hash::build_manifest"], "task": ["task::extract_showincludes", "task::run_task"], "sched": ["work::Work::run"]},
     "level": "proof",
-    "assumptions": DIRTY_ASSUME + ["'discovered dependencies never change build order' is decided in unit sched (readiness is computed from ordering_ins only; tagged C01); persistence across invocations is unit db (C08: write_build/read_build carry the discovered list)",
+    "assumptions": DIRTY_ASSUME + ["unit sched (Work::run): record_finished is only ever called with a report returned by Runner::wait (label rs::from_run, attached by the trusted wait stub) or, in `-t restat` adopt mode, with a report that repeats in order the names of the dependencies the step discovered in its last real run (ss::keeps_disc: D12, fixed; the precondition of the record_finished stub, tagged C09)",
+        "'discovered dependencies never change build order' is decided in unit sched (readiness is computed from ordering_ins only; tagged C01); persistence across invocations is unit db (C08: write_build/read_build carry the discovered list)",
         "unit task: extract_showincludes is proved to return as shown output exactly the lines that are not `Note: including file: ` lines, in order (si::shown over the trusted slice::split / strip_prefix / ends_with / to_vec wrappers), one reported name per note line, and never to panic on its [start..end] slice; " + TASK_ASSUME + "; read_depfile (iterator adapters) is NOT under contract: that the list it returns is what the depfile says is decided only up to depfile::parse (unit scan, C15)",
         "two spellings of one file map to one FileId through canonicalize_path (C13) + the trusted name->id map; here canon is an uninterpreted function"],
 }
